@@ -1337,6 +1337,10 @@ def rand_rules(rng):
 
 def rand_url_case(rng, cls):
     b = {"kind": "String", "name": rng.choice(["url", "url", None]), "set": None if rng.random() < 0.06 else rand_url_text(rng)}
+    if isinstance(b["set"], str) and b["set"].strip() != b["set"] and rng.random() < 0.7:
+        # String elements strip their input; a validator may assign the value ("only validation routines should write
+        # this attribute directly"), so surrounding white space reaches the URL validators this way
+        b["assign"] = {"value": b["set"], "u": b["set"]}
     v = {"cls": cls}
     if cls == "URLValidator":
         if rng.random() < 0.6:
@@ -1666,7 +1670,7 @@ class C15(Property):
         "decides_hasAtLeast", "decides_hasAtMost", "decides_hasBetween",
         "decides_setWithKnownFields", "decides_setWithAllFields", "decides_luhn10")]
     generated_obligations = ["Flatland.C15.Proofs.shapes_ok"]
-    quick_n = 100000
+    quick_n = 80000
     case_timeout = 30   # per-case alarm (run_impl and oracle each): a hang is reported as an oracle failure
     thorough_n = 800000
     trusted_base = [
